@@ -85,9 +85,9 @@ const fieldName = "X"
 
 var fieldVar = "X"
 
-var fieldNames = []string{"X"}
+var fieldNames = []string{{"X"}}
 
-func fieldFn() string { return "X" }
+func fieldFn() string {{ return "X" }}
 '''
 
 HDR = '''//go:build wireinject
